@@ -20,7 +20,11 @@ def run(tier):
     cfg = "CacheMC_C03.cfg" if tier == "quick" else "CacheMC_C03_thorough.cfg"
     rc1 = fam.run_family(PID, tier, 'feed', n, length, cfg, RULE, shards=16 if tier == "quick" else 48)
     cn = 1500 if tier == "quick" else 60000
-    rc2 = p_simple.run(PID, tier, [], [["cache", "feedconc", "-n", str(cn), "-shards", "8" if tier == "quick" else "32"]],
+    # CacheFeed.tla: the critical sections of GnmiUpdate for several writers of one target; "snapshot" is seeded change C03-6,
+    # "with_deletes" documents why the concurrent rounds carry no deletes (the design itself has no defined outcome there)
+    models = [("CacheFeed.tla", "CacheFeed_none.cfg", False), ("CacheFeed.tla", "CacheFeed_snapshot.cfg", True),
+              ("CacheFeed.tla", "CacheFeed_with_deletes.cfg", True)]
+    rc2 = p_simple.run(PID, tier, models, [["cache", "feedconc", "-n", str(cn), "-shards", "8" if tier == "quick" else "32"]],
                        "CacheFeedConcTrace.tla", CONC_RULE % cn,
                        ["between quiescent points: concurrent rounds carry update notifications only (a delete racing with an update of the same leaf has "
                         "no defined outcome for two writers of one target); the feed callback reads the leaf it is handed under the recorder's lock, so the "
